@@ -78,6 +78,11 @@ type Exec struct {
 	// DefaultTaken counts, per select label, how often an instrumented select
 	// with a default clause found no communication ready after the mark.
 	DefaultTaken map[string]int
+
+	free  bool          // RunFree: no scheduler, threads are plain goroutines
+	doneC chan struct{} // RunFree: closed by Finish
+	doneO sync.Once
+	freeStart []func()
 }
 
 // Mark declares that the interesting phase of the scenario starts now: the
@@ -97,6 +102,13 @@ func Mark() {
 }
 
 var cur atomic.Pointer[Exec]
+
+// epoch counts executions (synctest bubbles) started so far; shims whose state
+// lives in channels use it to tell that a value outlived the bubble it was made in.
+var epoch atomic.Uint64
+
+// Epoch identifies the current execution's bubble (0 before the first one).
+func Epoch() uint64 { return epoch.Load() }
 
 // Current returns the active execution or nil.
 func Current() *Exec { return cur.Load() }
@@ -258,13 +270,23 @@ func Go(label string, f func()) {
 // Spawn starts a root goroutine of the scenario (called by the harness from
 // the explorer goroutine before Run's loop starts).
 func (x *Exec) Spawn(name string, f func()) {
+	if x.free {
+		// Started once Setup has returned: scenarios install their hooks after Spawn.
+		x.freeStart = append(x.freeStart, f)
+		return
+	}
 	g := x.register(nil, name)
 	x.start1(g, name, f)
 }
 
 // Finish marks the scenario as complete: the execution ends at the next
 // quiescent point.
-func (x *Exec) Finish() { x.finished.Store(true) }
+func (x *Exec) Finish() {
+	x.finished.Store(true)
+	if x.free {
+		x.doneO.Do(func() { close(x.doneC) })
+	}
+}
 
 // Finished reports whether Finish was called.
 func (x *Exec) Finished() bool { return x.finished.Load() }
